@@ -396,3 +396,32 @@ def run_tlc_sharded(module: str, rows: List[Dict[str, Any]], tmp: str, shards: i
         generated += g
         cmd = c
     return ShardResult(verdicts, ok, distinct, generated, cmd, {})
+
+
+
+import contextlib as _contextlib
+
+
+@_contextlib.contextmanager
+def package_debug_logging():
+    """the package's logger at DEBUG (the documented way to get debug output), records sent to a null stream: what the
+    package computes may not depend on the log level"""
+    import logging
+    from netqasm.logging.glob import set_log_level
+    prev_disable = logging.root.manager.disable
+    logging.disable(logging.NOTSET)
+    nlog = logging.getLogger("NetQASM")
+    devnull = open(os.devnull, "w")
+    saved_level = nlog.level
+    saved = [(h, h.stream) for h in nlog.handlers if isinstance(h, logging.StreamHandler)]
+    for h, _ in saved:
+        h.setStream(devnull)
+    set_log_level("DEBUG")
+    try:
+        yield
+    finally:
+        nlog.setLevel(saved_level)
+        for h, st in saved:
+            h.setStream(st)
+        logging.disable(prev_disable)
+        devnull.close()
